@@ -507,7 +507,7 @@ pub fn run(tier: Tier, replay: Option<String>) -> i32 {
                     }
                     let pr = DropParams { ty, drop_at, second_stage: stage, policy, hash_key };
                     let pr2 = pr.clone();
-                    let mut j = e3::job(format!("C17/drop/{}/stage{}/at{}/policy{}/key{}", ty.name(), stage, drop_at, policy, hash_key), drop_pj(&pr), tier.pick(1, 2), tier.pick(5_000, 100_000), move || drop_scenario(&pr2));
+                    let mut j = e3::job(format!("C17/drop/{}/stage{}/at{}/policy{}/key{}", ty.name(), stage, drop_at, policy, hash_key), drop_pj(&pr), tier.pick(2, 3), tier.pick(50_000, 500_000), move || drop_scenario(&pr2));
                     let tyname = ty.name().to_string();
                     j.on_blocked = std::sync::Arc::new(move |log: Vec<String>| {
                         let mut v = Verdict::default();
